@@ -17,6 +17,10 @@ Semantics that matter for the verdicts:
   loop (vlib.sched.aio) an application that waits there with nothing else runnable is reported
   as outcome ``'blocked'`` - no sleeping, no timeouts;
 * after the application closed the connection ``receive()`` answers ``websocket.disconnect``;
+* a ``{'type': 'pause'}`` marker in the client script makes the client silent at that point: pending
+  timers of the application (``asyncio.wait_for(ws.receive_*(), t)`` on the virtual clock) expire first, the
+  pause ends when the application is otherwise blocked for good - so a timed receive at a pause always
+  times out (its ``receive()`` is cancelled while parked) and an untimed one always gets the next event;
 * fault injection: the k-th ``send`` call (0-based, counting every attempt) raises; connection-lost
   kinds stay raised for every later attempt (the socket does not come back).
 """
@@ -26,6 +30,8 @@ import asyncio
 from vlib.sched import aio
 
 CONNECTING, OPEN, CLOSED, DENIED = 'CONNECTING', 'OPEN', 'CLOSED', 'DENIED'
+PAUSE = 'pause'     # script marker (never handed to the application): the client stays silent here until the
+                    # application has nothing left to do but wait without a deadline
 
 # kinds of send failures.  *_lost kinds tell the application that the connection is gone.
 LOST_KINDS = ('oserror', 'oserror_cause', 'ws_ok')
@@ -97,6 +103,8 @@ class WsSession:
         self.delivered = 0          # scripted client events handed to the application
         self.rx_calls = 0
         self.rx_after_disconnect = 0
+        self.rx_parked = 0          # receive() calls that had to wait (silent or pausing client)
+        self.pauses_released = 0
         self.lost = False           # a send attempt was answered with a connection-lost error
         self.lost_on = None         # type of the event whose attempt failed first
         self.close_event = None
@@ -136,13 +144,15 @@ class WsSession:
                 self.disconnect_handed = True
                 self.disconnect_code = (self.close_event or {}).get('code', 1000) if self.state == CLOSED else 1006
                 return {'type': 'websocket.disconnect', 'code': self.disconnect_code}
-            if self.delivered < len(self.script):
-                ev = self.script[self.delivered]
+            ev = self.script[self.delivered] if self.delivered < len(self.script) else None
+            if ev is not None and ev.get('type') != PAUSE:
                 self.delivered += 1
                 if ev.get('type') == 'websocket.disconnect':
                     self.disconnect_handed = True
                     self.disconnect_code = ev.get('code')
                 return dict(ev)
+            # script exhausted, or the client pauses here: nothing to hand over yet
+            self.rx_parked += 1
             fut = self.st.loop.create_future()
             self._waiters.append(fut)
             try:
@@ -150,6 +160,15 @@ class WsSession:
             finally:
                 if fut in self._waiters:
                     self._waiters.remove(fut)
+
+    def release_pause(self):
+        """The client speaks again (called by run() when the application can do nothing but wait)."""
+        if self.delivered < len(self.script) and self.script[self.delivered].get('type') == PAUSE:
+            self.delivered += 1
+            self.pauses_released += 1
+            self._wake()
+            return True
+        return False
 
     def _wake(self):
         for f in list(self._waiters):
@@ -285,10 +304,26 @@ class WsSession:
     def run(self, app, scope, max_steps=20000):
         st = self.st
         n_err = len(st.loop_errors)
-        outcome, val = st.run(app(scope, self.receive, self.send), max_steps=max_steps)
+        asyncio.set_event_loop(st.loop)
+        task = st.loop.create_task(app(scope, self.receive, self.send))
+        while True:
+            # timers (virtual time) fire only when nothing is runnable; a scripted client pause ends only
+            # when, in addition, no timer is pending: the application can do nothing but wait for the client
+            outcome = st.drive(task, max_steps)
+            if outcome == 'blocked' and self.release_pause():
+                continue
+            break
+        if outcome in ('blocked', 'steps'):
+            task.cancel()
+            for _ in range(50):
+                st.step()
+                if task.done():
+                    break
+        elif task.cancelled():
+            outcome, self.exc = 'raised', asyncio.CancelledError()
+        elif task.exception() is not None:
+            outcome, self.exc = 'raised', task.exception()
         self.outcome = outcome
-        if outcome == 'raised':
-            self.exc = val
         pend = st.pending_tasks()
         self.pending_tasks = len(pend)
         self.pending_names = [getattr(t.get_coro(), '__qualname__', '?') for t in pend]
